@@ -124,7 +124,7 @@ const Foreign = -2
 
 // HeightOf / HashOf / NameOf accept Genesis.
 func (w *World) HeightOf(i int) uint64 {
-	if i == Genesis {
+	if i == Genesis || i == Foreign {
 		return 0
 	}
 	return w.Blocks[i].Height
@@ -134,12 +134,18 @@ func (w *World) HashOf(i int) bc.Hash {
 	if i == Genesis {
 		return w.Net.Gen.Hash()
 	}
+	if i == Foreign {
+		return bc.NewHash([32]byte{0xde, 0xad, 0xbe, 0xef}) // a hash no store knows
+	}
 	return w.Blocks[i].Hash()
 }
 
 func (w *World) NameOf(i int) string {
 	if i == Genesis {
 		return "genesis"
+	}
+	if i == Foreign {
+		return "unknown-block"
 	}
 	return w.Names[i]
 }
